@@ -19,7 +19,15 @@
      timed_wait         waitForStart + handleError's watchExecution with arrival times: the ticker of
                         waitForStart (reset by every accepted initiate message) and the watcher's ticker
      session            one whole Execute call as driven by the runner (first attempt, injected failure of the
-                        first Run, bully outcome, second attempt via C07's initiate / wait_step2)          *)
+                        first Run, bully outcome, second attempt via C07's initiate / wait_step2)
+     all_peers / o_starts  initiate(): the initiate and the start message go to c.host.Peerstore().Peers() - every
+                        known peer, whoever answered ready - and the results of these Broadcasts are ignored
+                        (`_ =`): an unreachable peer (culprit or not) never stops an attempt
+     silent_wait        Execute's first attempt on a relayer that is not the coordinator: waitForStart(coordinator,
+                        CoordinatorTimeout) next to watchExecution(coordinator) with its TssTimeout ticker, fed
+                        messages with arrival times; only initiate messages of the coordinator re-arm the ticker
+     duo_*              two relayers of one session over one network: the coordinator's start message is what the
+                        other relayer's first attempt receives                                              *)
 From Coq Require Import List ZArith NArith Bool.
 Import ListNotations.
 From SygmaV Require Import Model.C07.
@@ -130,8 +138,17 @@ Record obs := mkObs {
   o_elected : option (list peer);            (* addressees of the bully Select broadcast = election candidates *)
   o_calls2 : list (list peer * list peer);   (* Ready(readyPeers, excludedPeers) calls of the second attempt *)
   o_ready2 : list peer;                      (* ready messages sent after the failure *)
-  o_final : N
+  o_final : N;
+  o_inits2 : list (list peer);               (* addressees of every initiate broadcast after the failure *)
+  o_starts : list (list peer * list peer)    (* every start broadcast of the session: announced params, addressees *)
 }.
+
+(* c.host.Peerstore().Peers(): the whole peer table ([m] entries, this relayer included) *)
+Definition all_peers (m : nat) : list peer := map N.of_nat (seq 0 m).
+
+(* the start broadcasts that belong to coordinator runs *)
+Definition starts_of (m : nat) (runs : list (bool * list peer)) : list (list peer * list peer) :=
+  flat_map (fun r : bool * list peer => if fst r then [(snd r, all_peers m)] else []) runs.
 
 Fixpoint index_of (p : peer) (l : list peer) (i : nat) : option nat :=
   match l with
@@ -167,30 +184,42 @@ Definition watch_timeout (tm : timing) : N := tss_to tm.
 
 Definition is_waiting (st : wstate) : bool := match st with Waiting => true | _ => false end.
 
-(* waitForStart(c, timeout) next to handleError's watcher (told the empty id, bound [watch]), fed
-   messages with arrival times.  [deadline] = when waitForStart's ticker fires next; an accepted
-   initiate message re-arms it.  Result: what the relayer did, and whether a ticker ended the session
-   (CoordinatorError of waitForStart / "tss process timed out" of the watcher). *)
-Fixpoint timed_wait (c : option peer) (timeout watch deadline : N) (st : wstate) (msgs : list (N * wmsg))
-  : list wout * bool :=
+(* waitForStart(c, timeout) next to a watchExecution that was told [wc] (handleError's watcher: the
+   empty id; Execute's: the attempt's coordinator) with bound [watch], fed messages with arrival times.
+   [deadline] = when waitForStart's ticker fires next; ONLY an accepted initiate message - one whose
+   sender passes the coordinator check - re-arms it.  Result: what the relayer did, whether a message
+   found the session ended by a ticker (CoordinatorError of waitForStart / "tss process timed out" of
+   the watcher), the state and the ticker's deadline after the last message. *)
+Record trun := mkTrun { tr_outs : list wout; tr_late : bool; tr_state : wstate; tr_deadline : N }.
+
+Fixpoint timed_run (wc c : option peer) (timeout watch deadline : N) (st : wstate) (msgs : list (N * wmsg)) : trun :=
   match msgs with
-  | [] => ([], false)
+  | [] => mkTrun [] false st deadline
   | (at_, m) :: r =>
       match st with
-      | Finished => ([], false)
+      | Finished => mkTrun [] false st deadline
       | _ =>
-          if (watch <=? at_)%N then ([], true)
-          else if is_waiting st && (deadline <=? at_)%N then ([], true)
+          if (watch <=? at_)%N then mkTrun [] true st deadline
+          else if is_waiting st && (deadline <=? at_)%N then mkTrun [] true st deadline
           else
-            let (st', o) := wait_step2 None c st m in
+            let (st', o) := wait_step2 wc c st m in
             let deadline' :=
               match st, m with
               | Waiting, MInitiate f => if from_ok c f then (at_ + timeout)%N else deadline
               | _, _ => deadline
               end in
-            let (o', late) := timed_wait c timeout watch deadline' st' r in (o ++ o', late)
+            let r' := timed_run wc c timeout watch deadline' st' r in
+            mkTrun (o ++ tr_outs r') (tr_late r') (tr_state r') (tr_deadline r')
       end
   end.
+
+Definition timed_wait (c : option peer) (timeout watch deadline : N) (st : wstate) (msgs : list (N * wmsg))
+  : list wout * bool :=
+  let r := timed_run None c timeout watch deadline st msgs in (tr_outs r, tr_late r).
+
+(* Execute's first attempt on a relayer whose coordinator is [c] *)
+Definition silent_wait (tm : timing) (c : peer) (msgs : list (N * wmsg)) : trun :=
+  timed_run (Some c) (Some c) (start_wait_timeout tm) (watch_timeout tm) (start_wait_timeout tm) Waiting msgs.
 
 (* the left-out relayer *)
 Definition left_out_wait (tm : timing) (msgs : list (N * wmsg)) : list wout * bool :=
@@ -203,6 +232,7 @@ Definition retry_start_wait (tm : timing) (c2 : peer) (msgs : list (N * wmsg)) :
 Section Session.
   Variable key : peer -> N.
   Variable tm : timing.
+  Variable m : nat.                (* size of the peer table *)
 
   (* the bully election as far as the runner scripts it: nobody answers (None) or one earlier
      candidate announces itself after this relayer's own Select *)
@@ -217,27 +247,34 @@ Section Session.
         end
     end.
 
-  (* what happens after the first attempt (whose Run calls were [runs1]) failed with [e] *)
+  (* what happens after the first attempt (whose Run calls were [runs1]) failed with [e].  Nothing here
+     depends on which peers can be reached: the results of the coordinator's broadcasts are ignored. *)
   Definition continue (cl : err -> action) (holders : list peer) (t : Z) (self : peer) (retryable : bool)
              (runs1 : list (bool * list peer)) (e : err)
              (winner : option peer) (ready2 : list peer) (msgs2 : list (N * wmsg)) : obs :=
+    let starts1 := starts_of m runs1 in
     match after_failure_with cl retryable holders e with
-    | Returned => mkObs runs1 None [] [] FOriginal
-    | ReturnedDecodeErr => mkObs runs1 None [] [] FOther
+    | Returned => mkObs runs1 None [] [] FOriginal [] starts1
+    | ReturnedDecodeErr => mkObs runs1 None [] [] FOther [] starts1
     | Waited =>
         let w := left_out_wait tm msgs2 in
         mkObs (runs1 ++ runs_of (fst w)) None [] (readies_of (fst w)) (if has_bad (fst w) || snd w then FOther else FNil)
+              [] starts1
     | Retried cands ex =>
         let c2 := bully_result self winner cands in
         if N.eqb c2 self then
           let (calls, ann) := initiate key holders t ex [self] ready2 in
-          mkObs (runs1 ++ match ann with Some sub => [(true, sub)] | None => [] end)
+          let runs2 := match ann with Some sub => [(true, sub)] | None => [] end in
+          mkObs (runs1 ++ runs2)
                 (Some (sort_peers key cands)) (map (fun r => (r, ex)) calls) [] FNil
+                [all_peers m] (starts1 ++ starts_of m runs2)
         else
           let w := retry_start_wait tm c2 msgs2 in
           mkObs (runs1 ++ runs_of (fst w)) (Some (sort_peers key cands)) [] (readies_of (fst w))
-                (if has_bad (fst w) || snd w then FOther else FNil)
+                (if has_bad (fst w) || snd w then FOther else FNil) [] starts1
     end.
+
+  Definition empty_obs : obs := mkObs [] None [] [] FNil [] [].
 
   (* the first Run of the first attempt returns the error [e] (as seen by handleError) *)
   Definition session (cl : err -> action) (holders : list peer) (t : Z) (self : peer) (retryable : bool)
@@ -251,11 +288,11 @@ Section Session.
         end
       else Some (false, start1) in
     match first with
-    | None => mkObs [] None [] [] FNil
+    | None => empty_obs
     | Some r1 => continue cl holders t self retryable [r1] e winner ready2 msgs2
     end.
 
-  (* the coordinator of the first attempt stays silent: waitForStart gives up with
+  (* the coordinator of the first attempt sends no start message: waitForStart gives up with
      CoordinatorError{coordinator}, which the outer pool wraps *)
   Definition silent_error (holders : list peer) : option err :=
     match coordinator key holders with
@@ -263,11 +300,58 @@ Section Session.
     | None => None
     end.
 
+  Definition with_readies (rs : list peer) (o : obs) : obs :=
+    mkObs (o_runs o) (o_elected o) (o_calls2 o) (rs ++ o_ready2 o) (o_final o) (o_inits2 o) (o_starts o).
+
+  (* [msgs1]: what arrives during the first attempt (forged traffic of other peers, initiate messages
+     of the coordinator), with arrival times; afterwards the runner waits for whichever ticker fires.
+     [o_ready2] lists every ready message of the session here. *)
   Definition session_silent (cl : err -> action) (holders : list peer) (t : Z) (self : peer) (retryable : bool)
+             (msgs1 : list (N * wmsg))
              (winner : option peer) (ready2 : list peer) (msgs2 : list (N * wmsg)) : obs :=
-    match silent_error holders with
-    | Some e => continue cl holders t self retryable [] e winner ready2 msgs2
-    | None => mkObs [] None [] [] FNil
+    match coordinator key holders with
+    | Some c =>
+        let w := silent_wait tm c msgs1 in
+        match tr_state w with
+        | Waiting =>
+            if (tr_deadline w <? watch_timeout tm)%N then
+              (* waitForStart's ticker: CoordinatorError{c} *)
+              with_readies (readies_of (tr_outs w))
+                (continue cl holders t self retryable [] (pool_join [Node (KCoord c) []]) winner ready2 msgs2)
+            else
+              (* the watchdog's ticker comes first: "tss process timed out", an unrecognised failure *)
+              mkObs [] None [] (readies_of (tr_outs w)) FOther [] []
+        | _ =>
+            (* the coordinator was not silent: its start message was accepted (the process runs until the
+               runner ends the session) or the session ended with a decoding error / its fail message *)
+            mkObs (runs_of (tr_outs w)) None [] (readies_of (tr_outs w))
+                  (if has_bad (tr_outs w) then FOther else FNil) [] []
+        end
+    | None => empty_obs
+    end.
+
+  (* Two relayers of one session.  [a] coordinates: its ready loop sees [ready1] (the genuine ready
+     answer of [c] among them or not) and announces a subset; its start message is what [c]'s first
+     attempt receives.  [c]'s process fails with SubsetError when the subset leaves it out. *)
+  Definition duo_subset (holders : list peer) (t : Z) (a : peer) (ready1 : list peer) : option (list peer) :=
+    snd (initiate key holders t [] [a] ready1).
+
+  Definition duo_a (holders : list peer) (t : Z) (a : peer) (ready1 : list peer) : obs :=
+    match duo_subset holders t a ready1 with
+    | Some sub => mkObs [(true, sub)] None [] [] FNil [] (starts_of m [(true, sub)])
+    | None => empty_obs
+    end.
+
+  (* the value [c]'s handleError sees: SubsetError joined by waitForStart's and by Execute's pool *)
+  Definition left_out_error : err := pool_join [pool_join [Node KSubset []]].
+
+  Definition duo_c (cl : err -> action) (holders : list peer) (t : Z) (a c : peer) (ready1 : list peer)
+             (msgs2 : list (N * wmsg)) : obs :=
+    match duo_subset holders t a ready1 with
+    | Some sub =>
+        if memb c sub then mkObs [(false, sub)] None [] [] FNil [] []
+        else continue cl holders t c true [(false, sub)] left_out_error None [] msgs2
+    | None => empty_obs
     end.
 End Session.
 
@@ -298,9 +382,42 @@ Fixpoint honoured (watch : N) (msgs : list (N * wmsg)) (runs : list (bool * list
       end
   end.
 
-(* the observation is what [a] demands ([tm], [msgs2]: the configured durations and the messages
-   offered after the failure, with arrival times) *)
-Definition obs_allows (tm : timing) (msgs2 : list (N * wmsg)) (holders : list peer) (nfirst : nat) (o : obs) (a : action) : bool :=
+(* "Who is told": every attempt this relayer ran as coordinator was announced by a start message that
+   went to every key holder other than itself and the excluded culprits - in particular to the holders
+   the subset leaves out, who otherwise cannot know that they have to wait for a replacement attempt. *)
+Definition told (holders : list peer) (self : peer) (ex : list peer)
+           (runs : list (bool * list peer)) (starts : list (list peer * list peer)) : bool :=
+  forallb (fun r : bool * list peer =>
+             if fst r then
+               existsb (fun s : list peer * list peer =>
+                          list_peer_eqb (fst s) (snd r)
+                          && forallb (fun p => memb p (snd s)) (exclude holders (self :: ex))) starts
+             else true) runs.
+
+(* The replacement attempt does not depend on the culprits: the key holders other than this relayer
+   that are not culprits, can be reached ([unreach]: peers to which every send fails) and answer ready *)
+Definition reachable_ready (holders : list peer) (ps unreach : list peer) (self : peer) (ready2 : list peer) : list peer :=
+  filter (fun h => negb (N.eqb h self) && negb (memb h ps) && negb (memb h unreach) && memb h ready2) holders.
+
+(* ... are enough for a subset of t+1 together with this relayer *)
+Definition enough (holders : list peer) (t : Z) (ps unreach : list peer) (self : peer) (ready2 : list peer) : bool :=
+  nodupb holders && (1 <=? t)%Z
+  && (t <=? Z.of_nat (length (reachable_ready holders ps unreach self ready2)))%Z.
+
+(* what the judge knows about the relayer and its surroundings *)
+Record env := mkEnv {
+  e_tm : timing;
+  e_holders : list peer;
+  e_t : Z;
+  e_self : peer;
+  e_unreach : list peer;             (* every Broadcast that addresses one of them returns a CommunicationError *)
+  e_ready2 : list peer;              (* senders of the ready messages offered to a replacement attempt's coordinator *)
+  e_msgs2 : list (N * wmsg)          (* messages offered to a waiting relayer after the failure *)
+}.
+
+(* the observation is what [a] demands *)
+Definition obs_allows (ev : env) (nfirst : nat) (o : obs) (a : action) : bool :=
+  let holders := e_holders ev in
   let second_runs := skipn nfirst (o_runs o) in
   match a with
   | RetryExcluding ps =>
@@ -311,10 +428,19 @@ Definition obs_allows (tm : timing) (msgs2 : list (N * wmsg)) (holders : list pe
           && forallb (fun r : bool * list peer =>
                         if fst r then forallb (fun p => negb (memb p ps)) (snd r) else true) second_runs
           && forallb (fun c : list peer * list peer => same_set (snd c) ps) (o_calls2 o)
+          (* it coordinates the replacement attempt (it broadcast an initiate message) and enough
+             reachable non-culprits are ready: the attempt runs, whether or not the culprits can be reached *)
+          && (match o_inits2 o with
+              | [] => true
+              | _ :: _ =>
+                  if enough holders (e_t ev) ps (e_unreach ev) (e_self ev) (e_ready2 ev)
+                  then existsb (fun r : bool * list peer => fst r) second_runs else true
+              end)
+          && told holders (e_self ev) ps second_runs (o_starts o)
       end
   | WaitForStart =>
       match o_elected o with
-      | None => negb (N.eqb (o_final o) FOriginal) && honoured (tss_to tm) msgs2 second_runs
+      | None => negb (N.eqb (o_final o) FOriginal) && honoured (tss_to (e_tm ev)) (e_msgs2 ev) second_runs
       | Some _ => false
       end
   | GiveUpDecode =>
@@ -324,12 +450,46 @@ Definition obs_allows (tm : timing) (msgs2 : list (N * wmsg)) (holders : list pe
   end.
 
 (* [nfirst] = number of Run calls of the first attempt (1, or 0 when the coordinator was silent) *)
-Definition spec_ok (tm : timing) (msgs2 : list (N * wmsg)) (holders : list peer) (retryable : bool) (e : err) (nfirst : nat) (o : obs) : bool :=
-  if negb retryable then obs_allows tm msgs2 holders nfirst o GiveUp
-  else match recognised_kinds e with
-       | [] => obs_allows tm msgs2 holders nfirst o GiveUp
-       | ks => existsb (fun k => obs_allows tm msgs2 holders nfirst o (action_of_kind k)) ks
-       end.
+Definition spec_ok (ev : env) (retryable : bool) (e : err) (nfirst : nat) (o : obs) : bool :=
+  told (e_holders ev) (e_self ev) [] (firstn nfirst (o_runs o)) (o_starts o)
+  && (if negb retryable then obs_allows ev nfirst o GiveUp
+      else match recognised_kinds e with
+           | [] => obs_allows ev nfirst o GiveUp
+           | ks => existsb (fun k => obs_allows ev nfirst o (action_of_kind k)) ks
+           end).
+
+(* "The coordinator was unresponsive": it sent no start (and no fail) message, and after each of its
+   initiate messages - and from the beginning - a whole coordinator timeout passes before the session's
+   TSS timeout.  Messages of other peers do not count, however many and however often. *)
+Definition coordinator_unresponsive (tm : timing) (c : peer) (msgs1 : list (N * wmsg)) : bool :=
+  (coord_to tm <? tss_to tm)%N
+  && forallb (fun x : N * wmsg =>
+                match snd x with
+                | MInitiate f => negb (N.eqb f c) || (fst x + coord_to tm <? tss_to tm)%N
+                | MStart f _ => negb (N.eqb f c)
+                | MFail f => negb (N.eqb f c)
+                end) msgs1.
+
+(* the judge of a silent-coordinator session *)
+Definition silent_ok (ev : env) (retryable : bool) (c : peer) (msgs1 : list (N * wmsg)) (o : obs) : bool :=
+  if coordinator_unresponsive (e_tm ev) c msgs1
+  then spec_ok ev retryable (pool_join [Node (KCoord c) []]) 0 o
+  else true.
+
+(* the judge of two relayers: [oa] the coordinator's observation, [oc] the other relayer's.  The
+   coordinator tells everybody; a key holder that the announced subset leaves out has been told (its
+   first attempt ran with that subset), does not blame anybody and waits for the replacement's start. *)
+Definition duo_ok (ev : env) (a : peer) (oa oc : obs) : bool :=
+  told (e_holders ev) a [] (o_runs oa) (o_starts oa)
+  && match o_runs oa with
+     | (true, sub) :: _ =>
+         if memb (e_self ev) sub then true
+         else match o_runs oc with
+              | (false, sub') :: _ => list_peer_eqb sub sub' && spec_ok ev true left_out_error 1 oc
+              | _ => false
+              end
+     | _ => true
+     end.
 
 Inductive proc_kind := PSigning | PKeygen | PResharing.
 Definition retryable_of (k : proc_kind) : bool := match k with PSigning => true | _ => false end.
